@@ -45,6 +45,9 @@ constexpr auto floor_check(T const x) noexcept -> T
                           :
                           // signed-zero cases
             T(0) == x ? x
+                      :
+                      // already integral (and too large for the integer cast below)
+            abs(x) >= T(1) / etl::numeric_limits<T>::epsilon() ? x
                                                        :
                                                        // else
             floor_int(x, T(static_cast<llint_t>(x)))
